@@ -299,9 +299,10 @@ class Model:
         if ve is None or set(ve) != {"Some", "None"} or ve["None"] in body or ve["Some"] not in body:
             raise AnchorError("DiffTool::diff: inner loop at %s: iterator result is not matched Some/None" % where)
         exits = {s2 for b in body for s2 in f.succ(b) if s2 not in body and not f.blocks[s2]["cleanup"] and f.blocks[s2]["term"]["k"] != "unreachable"}
-        if exits != {ve["None"]}:
-            raise AnchorError("DiffTool::diff: inner loop at %s has exits other than iterator exhaustion (%s)" % (where, sorted(exits)))
-        info = {"start": None, "end": None, "filter_ok": False, "push_ok": False, "targets_d": False}
+        early = sorted(exits - {ve["None"]})
+        if ve["None"] not in exits:
+            raise AnchorError("DiffTool::diff: inner loop at %s is never left by iterator exhaustion (%s)" % (where, sorted(exits)))
+        info = {"start": None, "end": None, "filter_ok": False, "push_ok": False, "targets_d": False, "early_exit": sorted({f.loc(b) for b in body for s2 in f.succ(b) if s2 in early})}
         it = o.operand(nt["args"][0])
         rngs = [n for n in it.walk() if n.kind == "agg" and n.a[0].endswith("Range::Range") and n.at is not None]
         if len(rngs) == 1:
@@ -774,7 +775,12 @@ class Model:
         elif kind == "ranged":
             info = ev[2]
             site = self._site(bb)
-            good = info["filter_ok"] and info["push_ok"] and info["targets_d"] and info["start"] == "E"
+            good = info["filter_ok"] and info["push_ok"] and info["targets_d"] and info["start"] == "E" and not info.get("early_exit")
+            if info.get("early_exit"):
+                for rule_ in ("R1.3", "R2.1", "R3.1"):
+                    self.need(rule_, "ranged-complete@%s" % site, False, where, "",
+                              "the loop over the skipped expectations E..X can be left early (break / return at %s): the expectations behind that point are skipped "
+                              "without a record - a required one among them gets no line and no Unmatched entry, the test passes" % info["early_exit"])
             self.need("R1.3", "ranged-shape@%s" % site, good, where,
                       "`for i in E..X if !EXPS[i].optional: push Unmatched{i, EXPS[i]}` (filter keeps exactly the non-optional, the closure pushes onto the result)",
                       "the ranged unmatched idiom is malformed: start=%s filter-ok=%s push-ok=%s pushes-to-result=%s" % (info["start"], info["filter_ok"], info["push_ok"], info["targets_d"]))
